@@ -65,11 +65,45 @@ def st_mol(draw, min_atoms=2, max_atoms=3, elements=None, bases=("sto-3g", "6-31
     t = np.array([draw(st.floats(-1.0, 1.0)) for _ in range(3)])
     pos = [(R @ p + t) for p in pos]
     spin = ne % 2
-    if draw(st.integers(0, 5)) == 0 and ne >= 4:
-        spin += 2
     basis = draw(st.sampled_from(list(bases)))
+    # high spin only where the smallest basis has room for the alpha electrons (minimal basis: 1 AO for H/He,
+    # 5 for Li..Ne, 9 for Na..Ar)
+    nao_min = sum(1 if ZNUM[e] <= 2 else (5 if ZNUM[e] <= 10 else 9) for e in els)
+    if draw(st.integers(0, 5)) == 0 and ne >= 4 and (ne + spin + 2) // 2 <= nao_min:
+        spin += 2
     return {"atoms": [[e, [float(x) for x in p]] for e, p in zip(els, pos)], "basis": basis,
             "spin": int(spin), "charge": 0, "grid_level": int(draw(st.sampled_from(list(levels))))}
+
+
+# chemically reasonable small molecules (SCF converges routinely): (elements, bond lengths in bohr, angle, spin)
+CHEM_TEMPLATES = [
+    (["H", "H"], [1.4], None, 0), (["H", "F"], [1.73], None, 0), (["Li", "H"], [3.0], None, 0),
+    (["H", "O", "H"], [1.81, 1.81], 1.82, 0), (["O", "H"], [1.83], None, 1), (["N", "H"], [1.96], None, 2),
+    (["C", "O"], [2.13], None, 0), (["N", "N"], [2.07], None, 0), (["H", "C", "H"], [2.1, 2.1], 1.78, 0),
+    (["Li", "F"], [2.95], None, 0), (["H", "N", "H"], [1.93, 1.93], 1.8, 1), (["He", "H"], [1.46], None, 0, 1),
+    (["B", "H"], [2.33], None, 0), (["Be", "H"], [2.54], None, 1), (["H", "C", "N"], [2.01, 2.18], 3.0, 0),
+]
+
+
+@st.composite
+def st_mol_chem(draw, bases=("sto-3g", "6-31g"), levels=(1,), max_atoms=3, max_elec=16):
+    """one of a list of chemically reasonable molecules with jittered geometry (bond lengths +-10%, angle +-0.2 rad),
+    generic orientation; for checks that need routinely converging SCF calculations"""
+    cands = [t for t in CHEM_TEMPLATES if len(t[0]) <= max_atoms and sum(ZNUM[e] for e in t[0]) <= max_elec]
+    t = draw(st.sampled_from(cands))
+    els, bonds, ang, spin = t[0], t[1], t[2], t[3]
+    charge = t[4] if len(t) > 4 else 0
+    pos = [np.zeros(3), np.array([0.0, 0.0, bonds[0] * draw(st.floats(0.9, 1.12))])]
+    if len(els) == 3:
+        a = ang + draw(st.floats(-0.2, 0.2))
+        a = min(a, 3.05)
+        r = bonds[1] * draw(st.floats(0.9, 1.12))
+        pos.append(pos[1] + r * np.array([np.sin(a), 0.0, -np.cos(a)]))
+    R = _rot([draw(st.floats(0.2, 2.9)) for _ in range(3)])
+    tv = np.array([draw(st.floats(-1.0, 1.0)) for _ in range(3)])
+    pos = [(R @ p + tv) for p in pos]
+    return {"atoms": [[e, [float(x) for x in p]] for e, p in zip(els, pos)], "basis": draw(st.sampled_from(list(bases))),
+            "spin": int(spin), "charge": int(charge), "grid_level": int(draw(st.sampled_from(list(levels))))}
 
 
 def build_mol(spec, atoms=None, basis=None):
